@@ -260,7 +260,23 @@ func inspectCalls(info *types.Info, n ast.Node, f func(call *ast.CallExpr, calle
 // alwaysPanics reports whether executing the statement list certainly ends in a panic
 // (explicit panic, or a call to a helper that always panics) — used to recognise "reject" branches.
 func (a *analysis) alwaysPanics(info *types.Info, stmts []ast.Stmt) bool {
-	for _, s := range stmts {
+	for i, s := range stmts {
+		// an earlier statement that can return (a return nested in an if/switch/loop) means the list does not always panic
+		if i > 0 {
+			escapes := false
+			ast.Inspect(stmts[i-1], func(n ast.Node) bool {
+				switch n.(type) {
+				case *ast.FuncLit:
+					return false
+				case *ast.ReturnStmt:
+					escapes = true
+				}
+				return true
+			})
+			if escapes {
+				return false
+			}
+		}
 		switch s := s.(type) {
 		case *ast.ExprStmt:
 			if call, ok := s.X.(*ast.CallExpr); ok && a.callPanics(info, call) {
